@@ -523,7 +523,10 @@ class QasmModule(ABC):  # pylint: disable=too-many-instance-attributes
         try:
             self.num_qubits, self.num_clbits = 0, 0
             visitor = QasmVisitor(self, check_only=True)
+            unrolled_stmts = self._unrolled_ast.statements
             self.accept(visitor)
+            # a check-only visit produces no statements: the unrolled program stays as it was
+            self._unrolled_ast.statements = unrolled_stmts
         except (ValidationError, NotImplementedError) as err:
             self.num_qubits, self.num_clbits = -1, -1
             raise err
